@@ -99,7 +99,7 @@ def compile_ir(src_path, src_text=None, extra=()):
         return out
     tmp_src = None
     if src_path is None or not os.path.exists(src_path) or open(src_path).read() != src_text:
-        tmp_src = os.path.join(d, key + '.cpp')
+        tmp_src = os.path.join(d, key + '.%d.cpp' % os.getpid())      # per process: identical harness texts are compiled in parallel
         with open(tmp_src, 'w') as f:
             f.write(src_text)
         src_path = tmp_src
@@ -108,6 +108,11 @@ def compile_ir(src_path, src_text=None, extra=()):
     if rc != 0:
         raise RuntimeError('clang failed for %s:\n%s' % (src_path, o[-4000:]))
     os.replace(tmp, out)
+    if tmp_src is not None:
+        try:
+            os.unlink(tmp_src)
+        except OSError:
+            pass
     return out
 
 
